@@ -59,24 +59,26 @@ def _compile_file(path, syntax_only):
     return p.returncode, errs
 
 
-def compile_texts(ctx, texts, tag, predicted=None, batch=150):
+def compile_texts(ctx, texts, tag, group=None, batch=150):
     """texts: list of written subroutines (each named `sub`).  Returns list of (accepted, message).
 
-    Units are renamed and compiled many per file (one f951 process costs about as much as twenty
-    units).  gfortran skips its later passes once any error was seen and a parse error can spill
-    into the next unit, so: only errors located at or after a unit's first directive line count
-    (a unit with an earlier error is a spill-over victim and is compiled again), units without an
-    error in a file that had errors are compiled again, and a unit is accepted only as part of a
-    file that compiled without any error.  `predicted` (same length, bool = the specification
-    expects acceptance) only groups the units so that the expected-clean ones share a file."""
+    One f951 process costs about as much as twenty units, so units are renamed and compiled many
+    per file where that is sound: gfortran skips its later passes once any error was seen, and a
+    parse error derails the parser for all following units.  Therefore
+      * group 0/1 (the specification expects acceptance / a rejection by the OpenMP-OpenACC
+        lowering, which does not derail anything) are batched; a unit is accepted only as part of
+        a file that compiled without any error; units without an error in a file that had errors
+        are compiled again; if a parse error shows up anyway the rest of the file goes to
+      * group 2 (front-end rejection expected): one unit per file, many files per gfortran command.
+    `group` only steers the packing; every verdict is gfortran's."""
     d = ctx.scratch / ("gf_" + tag)
     d.mkdir(parents=True, exist_ok=True)
     uniq = {}
     for k, t in enumerate(texts):
-        uniq.setdefault(t, predicted[k] if predicted else True)
+        uniq.setdefault(t, group[k] if group else 0)
     keys = list(uniq)
     verdict = {}
-    stats = {"processes": 0}
+    stats = {"f951": 0}
 
     def unit(k, i):
         t = re.sub(r"(?im)^(\s*(?:end\s+)?subroutine\s+)sub\b", lambda m: m.group(1) + "sub_%d" % i, k)
@@ -88,14 +90,49 @@ def compile_texts(ctx, texts, tag, predicted=None, batch=150):
                 return n
         return 10 ** 9
 
-    def work(chunk_id, idxs):
+    def singles(idxs):
+        for k in range(0, len(idxs), 40):
+            part = idxs[k:k + 40]
+            names = []
+            for i in part:
+                g = d / ("u%d.f90" % i)
+                g.write_text(unit(keys[i], i))
+                names.append(g.name)
+            try:
+                p = subprocess.run(["gfortran", "-fopenmp", "-fopenacc", "-fmax-errors=0", "-S"] + names, cwd=str(d),
+                                   capture_output=True, text=True, timeout=1800)
+            except subprocess.TimeoutExpired:
+                raise RuntimeError("gfortran timed out in %s" % d)
+            stats["f951"] += len(part)
+            errs = {}
+            cur = None
+            for line in p.stderr.splitlines():
+                m = _LOC.match(line)
+                if m:
+                    cur = m.group(1)
+                    if m.group(4):
+                        errs.setdefault(cur, _norm_msg(m.group(4)))
+                    continue
+                m = _ERR.match(line)
+                if m and cur:
+                    errs.setdefault(cur, _norm_msg(m.group(1)))
+            for i in part:
+                name = "u%d.f90" % i
+                produced = (d / ("u%d.s" % i)).exists()
+                if name in errs:
+                    verdict[i] = (False, errs[name])
+                elif produced:
+                    verdict[i] = (True, "")
+                else:
+                    raise RuntimeError("gfortran gave neither an error nor an output for %s/%s" % (d, name))
+
+    def batched(chunk_id, idxs):
         alive = list(idxs)
         rnd = 0
-        victim_count = {}
         while alive:
             rnd += 1
-            if rnd > 15:
-                raise RuntimeError("gfortran batches do not converge in %s" % d)
+            if rnd > 10:
+                return alive
             lines_of, body, pos = [], [], 1
             for i in alive:
                 u = unit(keys[i], i)
@@ -106,7 +143,7 @@ def compile_texts(ctx, texts, tag, predicted=None, batch=150):
             f = d / ("b%d_%d.f90" % (chunk_id, rnd))
             f.write_text("".join(body))
             res = _compile_file(f, False)
-            stats["processes"] += 1
+            stats["f951"] += 1
             if res is None:
                 raise RuntimeError("gfortran timed out on %s" % f)
             rc, errs = res
@@ -115,47 +152,68 @@ def compile_texts(ctx, texts, tag, predicted=None, batch=150):
             if not errs:
                 for i in alive:
                     verdict[i] = (True, "")
-                return
-            bad, victims = {}, set()
+                return []
+            bad, derailed_from = {}, None
             for ln, msg in errs:
                 owner = None
                 if ln is not None:
                     for a, b, i, fd in lines_of:
                         if a <= ln <= b:
-                            owner = (i, fd)
+                            owner = (i, fd, a)
                             break
                 if owner is None:
                     raise RuntimeError("cannot attribute gfortran error %r (line %r) in %s" % (msg, ln, f))
                 if ln < owner[1]:
-                    victims.add(owner[0])
+                    # an error before the unit's first directive: the parser was derailed by an earlier unit
+                    derailed_from = owner[2] if derailed_from is None else min(derailed_from, owner[2])
                 else:
-                    bad.setdefault(owner[0], msg)
-            for i in victims:
-                bad.pop(i, None)
-                victim_count[i] = victim_count.get(i, 0) + 1
-                if victim_count[i] >= 2:
-                    # not a spill-over: judge this unit on its own
-                    g = d / ("u%d.f90" % i)
-                    g.write_text(unit(keys[i], i))
-                    r1 = _compile_file(g, False)
-                    stats["processes"] += 1
-                    if r1 is None or (r1[0] != 0 and not r1[1]):
-                        raise RuntimeError("gfortran failed on %s" % g)
-                    bad[i] = r1[1][0][1] if r1[0] != 0 else None
-            for i, msg in bad.items():
-                verdict[i] = (False, msg) if msg is not None else (True, "")
-            if not bad:
-                raise RuntimeError("gfortran reported only spill-over errors in %s" % f)
+                    bad.setdefault(owner[0], (ln, msg))
+            leftover = []
+            if derailed_from is not None:
+                # everything from the unit before the first derailed one onwards is judged separately
+                order = [i for a, b, i, fd in lines_of]
+                starts = [a for a, b, i, fd in lines_of]
+                k0 = max(0, max(k for k, a in enumerate(starts) if a <= derailed_from) - 1)
+                leftover = order[k0:]
+                alive = order[:k0]
+                bad = {i: v for i, v in bad.items() if i in alive}
+            for i, (ln, msg) in bad.items():
+                verdict[i] = (False, msg)
             alive = [i for i in alive if i not in bad]
+            if leftover:
+                return leftover + batched(chunk_id * 100 + rnd, alive) if alive else leftover
+        return []
 
-    good = [i for i, k in enumerate(keys) if uniq[k]]
-    rest = [i for i, k in enumerate(keys) if not uniq[k]]
-    chunks = [good[k:k + batch] for k in range(0, len(good), batch)] + [rest[k:k + batch] for k in range(0, len(rest), batch)]
-    with ThreadPoolExecutor(max_workers=max(2, min(6, core.NCPU // 2))) as ex:
-        list(ex.map(lambda a: work(*a), enumerate(chunks)))
-    ctx.notes["gfortran_processes"] = ctx.notes.get("gfortran_processes", 0) + stats["processes"]
+    def work(args):
+        chunk_id, g, idxs = args
+        if g == 2:
+            singles(idxs)
+        else:
+            left = batched(chunk_id, idxs)
+            if left:
+                singles(left)
+
+    jobs = []
+    for g in (0, 1, 2):
+        idxs = [i for i, k in enumerate(keys) if uniq[k] == g]
+        size = batch if g != 2 else 40
+        for k in range(0, len(idxs), size):
+            jobs.append((len(jobs), g, idxs[k:k + size]))
+    with ThreadPoolExecutor(max_workers=int(os.environ.get("VERIF_JOBS", "4"))) as ex:
+        list(ex.map(work, jobs))
+    ctx.notes["gfortran_f951_processes"] = ctx.notes.get("gfortran_f951_processes", 0) + stats["f951"]
     index = {k: i for i, k in enumerate(keys)}
     return [verdict[index[t]] for t in texts]
+
+
+FRONT_END_RULES = {8, 9, 10, 12}
+
+
+def compile_group(tree):
+    v = spec.cc_viol(tree)
+    if not v:
+        return 0
+    return 2 if any(c in FRONT_END_RULES for c, _, _ in v) else 1
 
 
 # ------------------------------------------------------------------ implementation runs
@@ -197,15 +255,21 @@ def op_json(op):
     return [op[0], [op[1][0]] + [list(x) if isinstance(x, tuple) else x for x in op[1][1:]], op[2]]
 
 
-def replay_witness(w):
-    """w = {"skeleton": nested lists, "ops": [[name, target, options], ...]} -> (verdicts, write verdict, text, tree)"""
+def replay_witness(w, steps=None):
+    """w = {"skeleton": nested lists, "ops": [[name, target, options], ...]} -> (verdicts, write verdict, text, tree);
+    the steps are recorded like those of a generated history"""
     skel = to_tuple(w["skeleton"])
     rt = impl.read(skel)
     vs = []
-    for name, target, options in w["ops"]:
-        tg = tuple(tuple(x) if isinstance(x, list) else x for x in target)
-        v, _ = impl.apply_op(rt, (name, tg, options))
+    for op in spec.witness_ops(w):
+        before = impl.serialise(rt)
+        v, msg = impl.apply_op(rt, op)
         vs.append(v)
+        if steps is not None:
+            forced = bool((op[2] or {}).get("force"))
+            dep_ok = forced or not (v == "terr" and "Dependency analysis failed" in msg)
+            steps.append({"before": before, "op": op, "dep_ok": dep_ok, "verdict": v,
+                          "after": impl.serialise(rt) if v == "ok" else before, "msg": msg[:200]})
         if v == "crash":
             return vs, "crash", "", None
     wv, text = impl.write(rt)
@@ -216,6 +280,22 @@ def to_tuple(x):
     if isinstance(x, list):
         return tuple(to_tuple(y) for y in x)
     return x
+
+
+def gen_witness_file(ctx):
+    """coq/C10/GenWitness.v from known_findings.json (every listed witness, open or fixed)"""
+    recs = []
+    for kf in ctx.known_findings():
+        w = kf["witness"]
+        ops = core.coq_list(spec.coq_op(o, True) for o in spec.witness_ops(w))
+        recs.append("  (* %s *)\n  Build_witness %s %s %s %s" % (
+            kf["key"], spec.coq_forest(to_tuple(w["skeleton"])), ops, spec.coq_forest(to_tuple(w["final_tree"])),
+            spec.coq_expect(kf["key"])))
+    text = ("(* GENERATED by props/C10/check.py from props/C10/known_findings.json -- do not edit *)\n"
+            "From Coq Require Import List.\nImport ListNotations.\n"
+            "From PV Require Import C10.Kinds C10.Gen C10.Model C10.Compiler C10.Cover C10.Witness.\n\n"
+            "Definition witnesses : list witness := [\n%s\n].\n" % ";\n".join(recs))
+    return core.write_if_changed(core.COQ / "C10" / "GenWitness.v", text)
 
 
 # ------------------------------------------------------------------ the check
@@ -248,6 +328,7 @@ def run(ctx):
     # ---- 1. translator + proofs
     gen_error = None
     try:
+        gen_witness_file(ctx)
         changed, notes = translate.generate()
         ctx.notes["translator_notes"] = notes
         ctx.log("translator ok (Gen.v %s)" % ("rewritten" if changed else "unchanged"))
@@ -271,18 +352,22 @@ def run(ctx):
 
     # ---- 2. implementation runs
     rng = ctx.rng("hist")
-    n_hist = ctx.pick(260, 2600)
+    n_hist = ctx.pick(170, 2400)
     maxlen = ctx.pick(4, 6)
     steps, finals = [], []       # finals: dict(tree, wverdict, text, source, log, skeleton)
     for k in range(n_hist):
         skel = spec.gen_skeleton(rng, 3)
         fam = rng.choice(spec.FAMILIES)
         nops = rng.randint(1, maxlen)
+        n_before = len(steps)
         try:
             rt, log = run_history(rng, skel, nops, steps, fam)
         except impl.OutOfModel as e:
             ctx.hist("out_of_model", str(e)[:40])
             continue
+        finally:
+            for st in steps[n_before:]:
+                st["hist"] = k
         ctx.hist("history_length", nops)
         if rt is None:
             ctx.hist("history_end", "crash")
@@ -295,7 +380,7 @@ def run(ctx):
         wv, text = impl.write(rt)
         accepted = sum(1 for e in log if e["verdict"] == "ok")
         finals.append({"tree": tree, "wv": wv, "text": text if wv == "ok" else "", "msg": "" if wv == "ok" else text[:200],
-                       "source": "history", "skeleton": skel, "log": log, "accepted": accepted})
+                       "source": "history", "skeleton": skel, "log": log, "accepted": accepted, "hist": k})
         ctx.hist("history_end", "written" if wv == "ok" else wv)
         ctx.hist("accepted_per_history", accepted)
     for s in steps:
@@ -304,7 +389,7 @@ def run(ctx):
 
     # directly built trees: writer with checks (gen_ok correspondence) and without (spec validation)
     rngd = ctx.rng("direct")
-    n_direct = ctx.pick(260, 2600)
+    n_direct = ctx.pick(110, 2000)
     unchecked = []
     seen_direct = set()
     for k in range(n_direct):
@@ -328,22 +413,24 @@ def run(ctx):
     ctx.log("direct trees=%d unchecked-written=%d (%.0fs)" % (len(seen_direct), len(unchecked), time.time() - t0))
 
     # ---- 3. known-finding witnesses are replayed like any other history
-    kf_cases = []
-    for kf in ctx.known_findings():
+    kfs = ctx.known_findings()
+    witness_final = {}
+    for kf in kfs:
         try:
-            vs, wv, text, tree = replay_witness(kf["witness"])
+            vs, wv, text, tree = replay_witness(kf["witness"], steps)
         except Exception as e:   # noqa
             ctx.log("witness of %s no longer runs: %s" % (kf["key"], e))
             continue
-        if wv == "ok":
-            finals.append({"tree": tree, "wv": wv, "text": text, "msg": "", "source": "witness:" + kf["key"],
-                           "skeleton": to_tuple(kf["witness"]["skeleton"]), "log": kf["witness"]["ops"],
-                           "accepted": sum(1 for v in vs if v == "ok")})
+        if tree is not None:
+            witness_final[kf["key"]] = (tree, wv)
+            finals.append({"tree": tree, "wv": wv, "text": text if wv == "ok" else "", "msg": "" if wv == "ok" else text[:200],
+                           "source": "witness:" + kf["key"], "skeleton": to_tuple(kf["witness"]["skeleton"]),
+                           "log": kf["witness"]["ops"], "accepted": sum(1 for v in vs if v == "ok")})
 
     # ---- 4. gfortran on everything written
     written = [f for f in finals if f["wv"] == "ok"]
     verdicts = compile_texts(ctx, [f["text"] for f in written] + [u["text"] for u in unchecked], "main",
-                             predicted=[not spec.cc_viol(x["tree"]) for x in written + unchecked])
+                             group=[compile_group(x["tree"]) for x in written + unchecked])
     for f, v in zip(written, verdicts[:len(written)]):
         f["gf"] = v
     for u, v in zip(unchecked, verdicts[len(written):]):
@@ -373,7 +460,7 @@ def run(ctx):
         fails = list(wfk)
         if not acc:
             fails += cck if cck else ["gfortran/unmodelled/" + re.sub(r"[^A-Za-z]+", "-", msg)[:60]]
-        if acc and cck:
+        if acc and cck and not spec.acc_intervening(tree):
             spec_bad.append({"tree": tree, "cc": cck, "text": f["text"]})
         for key in fails:
             ctx.hist("failing_key", key)
@@ -389,16 +476,9 @@ def run(ctx):
                 if ctx.finding(key, "PSyclone writes a directive structure that violates %s" % key, replay):
                     unlisted += 1
         if fails and f["source"] == "direct":
-            # a tree nobody produced by transformations, but which the WRITER accepted with its checks on:
-            # "the writer ... never emits an invalid directive structure"
-            replay = {"property": "C10", "final_tree": tree, "wf_violations": wfk, "compiler_rule_violations": cck,
-                      "gfortran_accepted": acc, "gfortran_message": msg, "written_code": f["text"],
-                      "how": "props/C10/impl.py: build(final_tree) (directive nodes inserted directly); write()"}
+            # built node by node, not by transformations: outside the property's quantifier; only counted
             for key in fails:
-                if unlisted >= 5:
-                    break
-                if ctx.finding(key, "FortranWriter emits a directive structure that violates %s" % key, replay):
-                    unlisted += 1
+                ctx.hist("writer_accepts_invalid_direct_tree", key)
     for f in finals:
         if f["wv"] != "ok":
             ctx.count(("refused", f["tree"]), False)
@@ -415,7 +495,7 @@ def run(ctx):
         cck = spec.cc_keys(u["tree"])
         acc, msg = u["gf"]
         ctx.hist("unchecked_gfortran", "accepted" if acc else "rejected")
-        if acc and cck:
+        if acc and cck and not spec.acc_intervening(u["tree"]):
             spec_bad.append({"tree": u["tree"], "cc": cck, "text": u["text"]})
         if not acc and not cck:
             cc_incomplete += 1
@@ -442,7 +522,27 @@ def run(ctx):
                                                             [scases[i] for i in bad_s], shard=400)] if bad_s else []
         unsound_f = [bad_f[i] for i in ctx.coq_eval_failing(HEADER, "final_case", "final_sound",
                                                             [fcases[i] for i in bad_f], shard=400)] if bad_f else []
-        ctx.cov["disagreements_checked"] = len(bad_s) + len(bad_f)
+        wcases = []
+        for kf in kfs:
+            w = kf["witness"]
+            wcases.append("(Build_witness %s %s %s %s)" % (
+                spec.coq_forest(to_tuple(w["skeleton"])), core.coq_list(spec.coq_op(o, True) for o in spec.witness_ops(w)),
+                spec.coq_forest(to_tuple(w["final_tree"])), spec.coq_expect(kf["key"])))
+        closed = set(ctx.coq_eval_failing(HEADER + " From PV Require Import C10.Witness.", "witness", "premises_b",
+                                          wcases, shard=400)) if wcases else set()
+        gaps = {}
+        mismatch = []
+        for i, kf in enumerate(kfs):
+            model_open = i not in closed
+            got = witness_final.get(kf["key"])
+            impl_open = bool(got and got[1] == "ok" and got[0] == to_tuple(kf["witness"]["final_tree"]))
+            gaps[kf["key"]] = {"model_premises_hold": model_open, "implementation_writes_witness_tree": impl_open,
+                               "status": kf.get("status")}
+            if model_open != impl_open:
+                mismatch.append(kf["key"])
+        ctx.notes["gap_witnesses"] = gaps
+        ctx.notes["gap_witness_model_impl_mismatch"] = mismatch
+        ctx.cov["disagreements_checked"] = len(bad_s) + len(bad_f) + len(mismatch)
         ctx.notes["correspondence"] = {"step_cases": len(scases), "final_cases": len(fcases),
                                        "step_disagreements": len(bad_s), "final_disagreements": len(bad_f),
                                        "implementation_more_permissive_steps": len(unsound_s),
@@ -456,6 +556,28 @@ def run(ctx):
             ctx.log("note: writer stricter than model on %r -> %s (%s)" % (finals[i]["tree"], finals[i]["wv"], finals[i]["msg"][:80]))
         stricter = [x for x in bad_s if x not in unsound_s] + [x for x in bad_f if x not in unsound_f]
         ctx.notes["correspondence"]["implementation_stricter_or_crash_mismatch"] = len(stricter)
+        # a step the implementation accepted although the faithful model refuses it (or with another result):
+        # does the history it belongs to end in a written tree that violates the property?  Then that is a
+        # concrete failing input reached through a new route, whatever key its failure has.
+        if unsound_s and not found_concrete:
+            by_hist = {f.get("hist"): f for f in written if f["source"] == "history"}
+            for i in unsound_s:
+                f = by_hist.get(steps[i].get("hist"))
+                if f is None:
+                    continue
+                fails = spec.wf_keys(f["tree"]) + (spec.cc_keys(f["tree"]) if not f["gf"][0] else [])
+                if not f["gf"][0] and not fails:
+                    fails = ["gfortran/unmodelled"]
+                if fails:
+                    ctx.violation({"property": "C10", "what": "a transformation step that the model of the unchanged code refuses is "
+                                   "accepted by the implementation, and the history ends in a written tree violating the property",
+                                   "step": {"before": steps[i]["before"], "op": op_json(steps[i]["op"]), "impl_verdict": steps[i]["verdict"]},
+                                   "failing_keys": fails, "final_tree": f["tree"], "written_code": f["text"],
+                                   "gfortran_accepted": f["gf"][0], "gfortran_message": f["gf"][1], "skeleton": f["skeleton"],
+                                   "source_fortran": impl.source_of(f["skeleton"]), "ops": f["log"],
+                                   "how": "props/C10/impl.py: read(skeleton); apply_op for each op; write(); gfortran -fopenmp -fopenacc -S"})
+                    found_concrete = True
+                    break
         if (unsound_s or unsound_f) and not found_concrete:
             first = None
             if unsound_s:
